@@ -33,8 +33,8 @@ ASSUMPTIONS = [
     '"already present" in a list means an entry with the same serialised selectorText',
     'a/**/b is invalid, not a descendant selector: comments are only generated where white space is optional or in addition to it',
 ]
-MIN_EVENTS = {'quick': {'oracle.selector': 24000, 'oracle.attached': 3000, 'oracle.list-step': 8000, 'rejections': 800},
-              'thorough': {'oracle.selector': 800000, 'oracle.attached': 80000, 'oracle.list-step': 200000, 'rejections': 20000}}
+MIN_EVENTS = {'quick': {'oracle.selector': 24000, 'oracle.attached': 3000, 'oracle.list-step': 8000, 'rejections': 800, 'oracle.parse-list': 1100, 'mode.log': 2000},
+              'thorough': {'oracle.selector': 550000, 'oracle.attached': 80000, 'oracle.list-step': 200000, 'rejections': 20000, 'oracle.parse-list': 22000, 'mode.log': 40000}}
 
 AXES = ['neutral', 'ws', 'ws-min', 'comments', 'case', 'escapes']
 
@@ -134,11 +134,13 @@ GOOD = ['a', 'b', 'a b', 'a > b', '.c', '#i', 'a.c', 'a:hover', 'li:first-child'
 BAD = ['a >', '.', '#', 'a[', 'a[b=]', ':', 'a:not(', '1a', 'a,,b', '', 'a !', 'a$', 'p|q']
 
 
-def run_list_history(ctx, cssutils, rng, ops_in=None, init_in=None):
+def run_list_history(ctx, cssutils, rng, ops_in=None, init_in=None, mode_in=None):
     css = cssutils.css
     init = init_in if init_in is not None else [rng.choice(GOOD) for _ in range(rng.randint(1, 4))]
     ops = []
-    case = {'kind': 'list', 'init': init, 'ops': ops}
+    # the error mode is part of the configuration: in log mode an invalid member is reported, not raised, and must invalidate the list all the same
+    raising = mode_in if mode_in is not None else (rng.random() < 0.6)
+    case = {'kind': 'list', 'init': init, 'ops': ops, 'raising': raising}
     try:
         core.canonical_state(cssutils)
         rule = css.CSSStyleRule(selectorText=', '.join(init))
@@ -186,7 +188,8 @@ def run_list_history(ctx, cssutils, rng, ops_in=None, init_in=None):
         ctx.count('evaluations')
         before = sl.selectorText
         try:
-            core.canonical_state(cssutils)
+            core.canonical_state(cssutils, raising=raising)
+            ctx.count('mode.raising' if raising else 'mode.log')
             outcome = 'ok'
             if k in ('append', 'append-present', 'append-spelled'):
                 sl.appendSelector(op[1])
@@ -195,9 +198,10 @@ def run_list_history(ctx, cssutils, rng, ops_in=None, init_in=None):
             elif k == 'append-bad':
                 try:
                     r = sl.appendSelector(op[1])
-                    if r is not None:
-                        ctx.violation('list.invalid-accepted', dict(case, failed_at=step), {'op': op, 'after': sl.selectorText})
+                    if r is not None or sl.selectorText != before:
+                        ctx.violation('list.invalid-accepted', dict(case, failed_at=step), {'op': op, 'after': sl.selectorText, 'before': before})
                         return
+                    ctx.count('rejections')
                 except xml.dom.DOMException:
                     ctx.count('rejections')
                 outcome = 'rejected'
@@ -205,9 +209,10 @@ def run_list_history(ctx, cssutils, rng, ops_in=None, init_in=None):
                 # appending a comma separated list is rejected as a whole
                 try:
                     r = sl.appendSelector(', '.join(op[1]))
-                    if r is not None:
-                        ctx.violation('list.invalid-accepted', dict(case, failed_at=step), {'op': op, 'after': sl.selectorText})
+                    if r is not None or sl.selectorText != before:
+                        ctx.violation('list.invalid-accepted', dict(case, failed_at=step), {'op': op, 'after': sl.selectorText, 'before': before})
                         return
+                    ctx.count('rejections')
                 except xml.dom.DOMException:
                     ctx.count('rejections')
                 outcome = 'rejected'
@@ -217,8 +222,10 @@ def run_list_history(ctx, cssutils, rng, ops_in=None, init_in=None):
             elif k == 'assign-bad':
                 try:
                     sl.selectorText = ', '.join(op[1])
-                    ctx.violation('list.invalid-accepted', dict(case, failed_at=step), {'op': op, 'after': sl.selectorText})
-                    return
+                    if raising or sl.selectorText != before:
+                        ctx.violation('list.invalid-accepted', dict(case, failed_at=step), {'op': op, 'after': sl.selectorText, 'before': before})
+                        return
+                    ctx.count('rejections')
                 except xml.dom.DOMException:
                     ctx.count('rejections')
                 outcome = 'rejected'
@@ -271,6 +278,27 @@ def run_worker(ctx):
         if not ctx.mine(i):
             continue
         run_list_history(ctx, cssutils, ctx.rng('l', i))
+    n = 1500 if quick else 30000
+    for i in range(n):
+        if not ctx.mine(i):
+            continue
+        rng = ctx.rng('p', i)
+        parts = [rng.choice(GOOD) for _ in range(rng.randint(1, 3))] + [rng.choice([b for b in BAD if b and b != 'p|q' and b.count('(') == b.count(')') and b.count('[') == b.count(']')])]
+        rng.shuffle(parts)
+        text = 'k0{left:0}' + ', '.join(parts) + '{top:0}k1{right:0}'
+        case = {'kind': 'parse-list', 'text': text}
+        ctx.count('oracle.parse-list')
+        ctx.count('evaluations')
+        try:
+            core.canonical_state(cssutils, raising=False)
+            sheet = cssutils.parseString(text)
+            core.canonical_state(cssutils)
+            got = [r.selectorText for r in sheet.cssRules if r.type == r.STYLE_RULE]
+        except Exception as e:
+            ctx.violation('list.exception', case, {'tb': core.short_tb(e)}, site=core.raise_site(e))
+            continue
+        if got != ['k0', 'k1']:
+            ctx.violation('list.invalid-accepted', case, {'rules': got, 'what': 'a rule whose selector list has an invalid member must be dropped as a whole'})
 
 
 def replay(ctx, case):
@@ -287,4 +315,4 @@ def replay(ctx, case):
     elif kind == 'attached':
         judge_attached(ctx, cssutils, case['abstract'], random.Random(0), [tuple(x) for x in case.get('namespaces', [])])
     elif kind == 'list':
-        run_list_history(ctx, cssutils, random.Random(0), ops_in=[list(o) for o in case['ops']], init_in=case['init'])
+        run_list_history(ctx, cssutils, random.Random(0), ops_in=[list(o) for o in case['ops']], init_in=case['init'], mode_in=case.get('raising', True))
